@@ -32,7 +32,7 @@ git -C /repo worktree remove --force $W
 if git -C /repo status --short | grep -q .; then echo "/repo not clean"; exit 2; fi
 git -C /repo apply "$D/patch.diff" || exit 2
 for c in "$@"; do
-  out=$(cd /verif && checks/check $c --tier quick 2>&1); rc=$?
+  out=$(cd /verif && VERIF_EVIDENCE_DIR=/var/tmp/beebtools-verif/scratch/ev-mut checks/check $c --tier quick 2>&1); rc=$?   # committed evidence is not overwritten
   echo "CHECK $c on $D: rc=$rc $(echo "$out" | grep -E "signature|MACHINERY" | head -4 | tr '\n' '|' | cut -c1-300)"
 done
 git -C /repo checkout -- .
